@@ -518,6 +518,15 @@ package plenccodec
 //@   loop 1 invariant[C04] 0 < offset && offset <= len(data) && m != nil
 //@   loop 1 decreases len(data) - offset
 //@   ensures[C04,C05] err == nil ==> 0 <= n && n <= len(data)
+//@   # acceptance: over a well-formed counted list (the ghost layout used for plenccore.Skip: scount() entries, entry i
+//@   # being a varint length slen(i) at sstart(i) followed by that many bytes; every entry takes at least its length
+//@   # byte, so scount() entries need at least scount() bytes) the only error is one reported for an entry's content
+//@   ghostdef wfslice() ==> scount() < (1 << 40) && len(data) >= vlen(scount()) && at(data, 0, venc(scount()), 10) && sstart(0) == vlen(scount()) && sstart(0) + int(scount()) <= len(data)
+//@   loop 1 ghostdef wfslice() && 0 < count && count <= scount() ==> 0 < sstart(scount() - count) && slen(scount() - count) < (1 << 40) \
+//@                && sstart(scount() - count) + vlen(slen(scount() - count)) + int(slen(scount() - count)) <= len(data) && at(data, sstart(scount() - count), venc(slen(scount() - count)), 10) \
+//@                && sstart(scount() - count + 1) == sstart(scount() - count) + vlen(slen(scount() - count)) + int(slen(scount() - count))
+//@   loop 1 invariant[C16] wfslice() ==> count <= scount() && offset == sstart(scount() - count)
+//@   ensures[C16] wfslice() && err != nil ==> called_readJSONKV && call_readJSONKV_r1 != nil
 
 //@ func plenccodec.JSONArrayCodec.Read
 //@   safety C04 C16
@@ -525,12 +534,23 @@ package plenccodec
 //@   loop 1 invariant[C04] 0 <= offset && offset <= len(data)
 //@   loop 1 decreases len(a) - rangeindex
 //@   ensures[C04,C05] err == nil ==> 0 <= n && n <= len(data)
+//@   # acceptance and exactness, over the same ghost layout: the only error is one reported for an entry's content, and
+//@   # the decoded slice holds exactly the encoded number of elements - whatever the target held before
+//@   ghostdef wfslice() ==> scount() < (1 << 40) && len(data) >= vlen(scount()) && at(data, 0, venc(scount()), 10) && sstart(0) == vlen(scount()) && sstart(0) + int(scount()) <= len(data)
+//@   loop 1 ghostdef wfslice() && 0 <= rangeindex + 1 && rangeindex + 1 < int(scount()) ==> 0 < sstart(uint64(rangeindex + 1)) && slen(uint64(rangeindex + 1)) < (1 << 40) \
+//@                && sstart(uint64(rangeindex + 1)) + vlen(slen(uint64(rangeindex + 1))) + int(slen(uint64(rangeindex + 1))) <= len(data) && at(data, sstart(uint64(rangeindex + 1)), venc(slen(uint64(rangeindex + 1))), 10) \
+//@                && sstart(uint64(rangeindex + 1) + 1) == sstart(uint64(rangeindex + 1)) + vlen(slen(uint64(rangeindex + 1))) + int(slen(uint64(rangeindex + 1)))
+//@   loop 1 invariant[C16,C10] wfslice() ==> rangelen == int(scount()) && offset == sstart(uint64(rangeindex + 1)) && loadi64(ptr + 8) == int(scount())
+//@   ensures[C16] wfslice() && err != nil ==> called_readJSONKV && call_readJSONKV_r1 != nil
+//@   ensures[C16,C10] wfslice() && err == nil ==> loadi64(ptr + 8) == int(scount())
 
 //@ func plenccodec.readJSONKV
 //@   safety C04 C16
 //@   loop 1 invariant[C04] 0 <= offset && offset <= len(data)
 //@   loop 1 decreases len(data) - offset
 //@   ensures[C04,C05] err == nil ==> 0 <= n && n <= len(data)
+//@   ensures[C16] err == nil ==> n == len(data)      # an entry is consumed to its end
+//@   ensures[C16] err == nil ==> loopdone_1
 
 //@ func plenccodec.*Descriptor.Read
 //@   safety C04 C13
